@@ -37,6 +37,18 @@ def gen(rng, n):
         if klass.startswith("symmetric"):
             v = (v + v[::-1]) / 2
         eps = float(10 ** rng.uniform(-5, -4.3))
+    if n >= 4 and rng.random() < 0.2:
+        # structured, not random: coefficients decaying geometrically / like a Gaussian away from the centre (truncated
+        # Fourier or Jacobi-Anger tails), outermost ones tiny against the centre, with a tight budget
+        klass = "decaying"
+        k = np.arange(n + 1) - n / 2.0
+        if rng.random() < 0.6:
+            v = float(rng.uniform(0.03, 0.3)) ** np.abs(k)
+        else:
+            v = np.exp(-(k / float(rng.uniform(0.8, 2.0))) ** 2)
+        v = v * rng.choice([-1.0, 1.0], size=n + 1) if rng.random() < 0.5 else v
+        v = v / np.abs(v).sum() * float(rng.uniform(0.3, 0.9))
+        eps = float(10 ** rng.uniform(-5, -4))
     suc = float(1 - 10 ** rng.uniform(-5, -2))
     if rng.random() < 0.15:
         eps = float(rng.choice([1e-5, 1e-2]))            # corners of the stated box
@@ -45,12 +57,41 @@ def gen(rng, n):
     return [float(x) for x in v], klass, eps, suc, bool(box)
 
 
+RATE = {"total": 0, "failed": []}     # in-box inputs with a tiny capitalised extreme (outside the mixed-pair mechanism): how many raise
 SESSION = []      # calls made so far in this process (most recent last): part of every replay
+
+
+def tiny_pair_choice(p, eps, suc, bits):
+    """independent of pyqsp's outcome: does 1 - F F~ (F the capitalised, rescaled input) have two tiny real inner roots,
+    and does the seed vector treat them differently (one kept, one replaced by its reciprocal)?  The root order is
+    that of numpy.roots on the same coefficient array the library builds, the bit positions follow the library's
+    (complex pairs first, then real roots)."""
+    q = np.array(p, dtype=float).copy()
+    q[0] += eps / 4
+    q[-1] += eps / 4
+    Fa = suc * q
+    poly = -np.convolve(Fa, Fa[::-1])
+    poly[len(Fa) - 1] += 1.0
+    nim, real = 0, []
+    for r in np.roots(poly):
+        if abs(r) < 1 and r.imag > -1e-8:
+            if r.imag == 0.0:
+                real.append(float(r.real))
+            else:
+                nim += 1
+    tiny = [i for i, r in enumerate(real) if abs(r) < 1e-2]
+    if len(tiny) < 2 or bits is None:
+        return "no-tiny-pair"
+    tiny = sorted(tiny, key=lambda i: abs(real[i]))[:2]
+    b = [int(bits[nim + i]) if nim + i < len(bits) else 0 for i in tiny]
+    return "mixed-tiny-pair" if b[0] != b[1] else "uniform-tiny-pair"
 
 
 def one(ctx, A, p, klass, eps, suc, box, bits_vec):
     drv = ctx.driver()
     n = len(p) - 1
+    if bits_vec is None:              # the library's own draw, made here so that it is known
+        bits_vec = [int(b) for b in ctx.rng.integers(0, 2, size=64)]
     # the replayed session: every degenerate / out-of-box call made so far plus the six most recent calls
     before = [c for i, c in enumerate(SESSION) if c.get("special") or i >= len(SESSION) - 6]
     SESSION.append({"p": list(p), "eps": eps, "suc": suc, "seed_bits": bits_vec, "special": n == 0 or not box})
@@ -65,13 +106,18 @@ def one(ctx, A, p, klass, eps, suc, box, bits_vec):
     ctx.count("class:" + klass)
     ctx.case([p, eps, suc, bits_vec], True, {"n": n, "class": klass, "eps": eps, "suc": suc, "in_box": box, "seed_bits": bits_vec, "outcome": out[0]})
     replay = {"p": p, "eps": eps, "suc": suc, "seed_bits": bits_vec, "class": klass, "in_box": box, "session_before": before}
+    capital = min(abs(suc * (p[0] + eps / 4)), abs(suc * (p[-1] + eps / 4)))
+    rate_class = box and n >= 1 and capital < 1e-3 and klass != "corpus" and tiny_pair_choice(p, eps, suc, bits_vec) != "mixed-tiny-pair"
+    if rate_class:
+        RATE["total"] += 1
+        if out[0] != "ok":
+            RATE["failed"].append({"p": list(p), "eps": eps, "suc": suc, "seed_bits": bits_vec[:16], "outcome": out[0]})
     if out[0] != "ok":
         if box:
-            capital = min(abs(suc * (p[0] + eps / 4)), abs(suc * (p[-1] + eps / 4)))
             if n == 0:
                 sig = "%s:constant:degree-zero" % out[0]
             else:
-                sig = "%s:%s:%s" % (out[0], root_signature_c07(p, eps, suc), "tiny-capitalised-extreme" if capital < 1e-3 else "extremes>=1e-3")
+                sig = "%s:%s:%s" % (out[0], root_signature_c07(p, eps, suc), ("tiny-capitalised-extreme:" + tiny_pair_choice(p, eps, suc, bits_vec)) if capital < 1e-3 else "extremes>=1e-3")
             replay["signature_detail"] = {"min_capitalised_extreme": capital}
             ctx.violation("c07:box-raises:" + sig, "angle_sequence raises (%s) inside the stated box (1-norm<=0.9, n<=12, eps, suc in range)" % out[0], replay)
         return out
@@ -153,7 +199,7 @@ def run(tier, seed):
     import glob, json, os
     for path in sorted(glob.glob(os.path.join(core.VERIF, "corpus", PROP, "*.json"))):
         c = json.load(open(path))
-        one(ctx, A, c["p"], c.get("class", "?"), c["eps"], c["suc"], c.get("in_box", False), c.get("seed_bits"))
+        one(ctx, A, c["p"], "corpus", c["eps"], c["suc"], c.get("in_box", False), c.get("seed_bits"))
         ctx.count("corpus")
     for n, reps in plan:
         # a session, not isolated calls: a constant (n = 0) request and an out-of-box request sit between
@@ -198,6 +244,23 @@ def run(tier, seed):
         vecs, complete = P.seed_vectors(rng, n, 3, 4)
         for bv in vecs:
             one(ctx, A, p, "near-collision", eps, suc, box, bv)
+    # a block of its own for that class: decaying vectors, the tightest budget, several root choices each
+    for _ in range(12 if tier == "quick" else 60):
+        n = int(rng.integers(8, 13))
+        k = np.arange(n + 1) - n / 2.0
+        v = float(rng.uniform(0.03, 0.3)) ** np.abs(k) if rng.random() < 0.6 else np.exp(-(k / float(rng.uniform(0.8, 2.0))) ** 2)
+        if rng.random() < 0.5:
+            v = v * rng.choice([-1.0, 1.0], size=n + 1)
+        v = v / np.abs(v).sum() * float(rng.uniform(0.3, 0.9))
+        for _s in range(8):
+            one(ctx, A, [float(x) for x in v], "decaying", 1e-5, 1 - 1e-5, True, [int(b) for b in rng.integers(0, 2, size=32)])
+    # the known finding covers a CLASS (tiny capitalised extreme: for a few per cent of the root choices the completion is
+    # ill-conditioned and the call raises).  So that a defect which makes this class fail wholesale is not hidden behind
+    # it, the share of raising calls in the class is bounded (12%; the unchanged tree raises on 0-5% of them).
+    ctx.extra["tiny_extreme_class"] = {"calls": RATE["total"], "raised": len(RATE["failed"])}
+    if RATE["total"] >= 40 and len(RATE["failed"]) > 0.12 * RATE["total"]:
+        ctx.violation("c07:tiny-extreme-failure-rate", "inside the box, %d of %d calls with a tiny capitalised extreme coefficient raise - far more than the few per cent "
+                      "of ill-conditioned root choices recorded as a known finding" % (len(RATE["failed"]), RATE["total"]), {"failing_calls": RATE["failed"][:20]})
     ctx.assumptions = ["that the floating-point pipeline returns inside the stated box is explored (forced seeds), not proved"]
     return ctx.finish(
         rule="real Laurent coefficient vectors of length n+1, n in 1..12 (plus 16..58), symmetric or not, 1-norm in (0,1.5], eps in [1e-5,1e-2], "
